@@ -49,6 +49,14 @@ def cases(tier, seed):
                    size=rnd.choice([0, 10, 100, 900, 4000]), fault=fault, align=rnd.random() < 0.35,
                    mixed_ts=nclients > 1 and rnd.random() < 0.6,
                    seed=seed * 100003 + i)
+    # hot family: several associations receive file-backed instances at the same time, with
+    # line-level pre-emption inside the functions that build the stored file
+    for i in range(250 if tier == 'quick' else 8000):
+        yield dict(ts=rnd.choice(sorted(TSS)), cmax=rnd.choice([1024, 16384]),
+                   smax=rnd.choice([1024, 16384]), recv=rnd.choice(['tempfile', 'dir']),
+                   source='ds', nclients=rnd.choice([2, 3]), nstores=rnd.randint(1, 2),
+                   same_uid=rnd.random() < 0.3, outcome='success', size=rnd.choice([0, 10, 100]),
+                   fault=None, align=False, mixed_ts=True, hot=True, seed=seed * 100019 + i)
 
 
 def make_ds(rnd, uid_, sop, size):
@@ -217,6 +225,13 @@ def run_case(case):
         for c in range(case['nclients']):
             world.spawn(lambda c=c: client(c), 'client%d' % c)
         faulty = case.get('fault')
+        pre = None
+        if case.get('hot'):
+            from .. import preempt
+            pre = preempt.Preempter(world.sim, prob=0.5, park_prob=0.3, park_max=0.2,
+                                    funcs={'write_meta', 'get_file', '_get_storage_file',
+                                           'process', 'storage_scp'})
+            pre.install()
         if faulty == 'disk':
             fs.fail_errno = rnd.choice([28, 5])
             fs.fail_write_at = rnd.randint(1, 12)
@@ -235,8 +250,12 @@ def run_case(case):
                 if duls:
                     world.sim.stall(rnd.choice(duls), rnd.choice([0.1, 0.4, 0.8]))
             world.sim.actors.append(sched.Trigger('stall', lambda: world.sim.steps >= k, do_stall))
-        world.run(tmax=3000)
-        world.drain(3.0)
+        try:
+            world.run(tmax=3000)
+            world.drain(3.0)
+        finally:
+            if pre is not None:
+                pre.uninstall()
         relaxed = faulty in ('disk', 'rst')
         acked = [r for r in results if r.get('acked')]
         failed = [r for r in results if 'exc' in r]
